@@ -90,7 +90,7 @@ DefaultIv == [r |-> Mk(3600), t |-> Mk(600), e |-> Mk(7200)]
 Blank == [pc |-> "dead", ver |-> 1, firstPdu |-> TRUE, needSess |-> TRUE, sess |-> 0, serial |-> "0",
           iv |-> DefaultIv, mode |-> "min_max", my |-> {}, oth |-> {}, buf |-> <<>>, now |-> 0, lastOk |-> 0,
           ack |-> None, owed |-> None, alt |-> None, mayDown |-> FALSE, mirror |-> {}, expired |-> FALSE,
-          goodSince |-> 0, target |-> {}, converged |-> FALSE, lastq |-> None, kf |-> {}, fast |-> FALSE]
+          goodSince |-> 0, target |-> {}, converged |-> FALSE, lastq |-> None, kf |-> {}, fast |-> FALSE, back |-> "resp1"]
 Res(c, b) == [c |-> c, bad |-> b]
 
 Expired(c, t) == c.lastOk # 0 /\ t - c.lastOk > c.iv.e.n
@@ -112,7 +112,8 @@ Resolve(c, e) ==
   ELSE IF e.e = "send" THEN [c EXCEPT !.alt = None] ELSE c
 
 Owe(codes, raw) == [codes |-> codes, raw |-> raw]
-Fail(c, codes, raw) == [c EXCEPT !.owed = Owe(codes, raw), !.pc = "reported", !.buf = <<>>]
+Fail(c, codes, raw) == [c EXCEPT !.owed = Owe(codes, raw), !.pc = "reported", !.buf = <<>>,
+                                 !.back = IF c.pc \in {"est", "poll"} THEN "est" ELSE "resp1"]
 Converge(c) == [c EXCEPT !.converged = c.converged \/ (c.goodSince # 0 /\ c.pc = "est" /\ c.my = c.target)]
 
 -----------------------------------------------------------------------------
@@ -186,8 +187,9 @@ HEod(c, f, t) ==
           ELSE [Fail(c1, IF a.why = "dup" THEN {7} ELSE IF a.why = "unknown" THEN {6} ELSE {0}, ob[a.i].raw)
                   EXCEPT !.alt = [my |-> {}]]
 
-HRecv(c, e) ==
-  LET f == e.f
+HRecv(cin, e) ==
+  LET c == IF cin.pc = "reported" /\ cin.owed = None THEN [cin EXCEPT !.pc = cin.back] ELSE cin   \* Dev_KeepReadingAfterReport
+      f == e.f
       cls == Class(f, c.ver, c.firstPdu)
       c0 == [c EXCEPT !.now = e.now, !.ver = NewVer(f, c.ver, c.firstPdu),
                       !.firstPdu = IF cls \in {"short", "big"} THEN c.firstPdu ELSE FALSE]
@@ -275,7 +277,9 @@ HMark(c, e) == Res([c EXCEPT !.goodSince = e.now, !.target = ToSet(e.cdata), !.c
 HTick(c, e) == Res(c, {})      \* the clock moved inside a blocking call; c.now stays the time at which that call was made
 
 Handle(c, e) ==
-  CASE e.e = "init"  -> HInit(c, e)
+  CASE (c.pc = "stopping" /\ e.e \in {"open", "send", "sendfail", "sendbad", "recv", "rfault", "sleep", "tick"})
+                     -> Res(c, {})          \* rtr_stop() is in progress: the client merely finishes the step it was in
+    [] e.e = "init"  -> HInit(c, e)
     [] e.e = "start" -> HStart(c, e)
     [] e.e = "open"  -> HOpen(c, e)
     [] e.e = "send"  -> HSend(c, e)
